@@ -396,6 +396,12 @@ class ElfiModel(GraphicalModel):
         """
         kopy = super(ElfiModel, self).copy()
         kopy.name = "{}_copy_{}".format(self.name, random_name())
+        # The copy gets its own node states and observed data so that changing them (e.g.
+        # the parameter flags) does not alter this model
+        for name in kopy.nodes:
+            state = kopy.source_net.nodes[name]
+            state['attr_dict'] = state['attr_dict'].copy()
+        kopy.observed = self.observed.copy()
         return kopy
 
     def save(self, prefix=None):
